@@ -567,6 +567,21 @@ example : (Netpol.Engine.build ce6).map (fun _ => ()) = .error .dupNetpol ∧
 example : ErrClause .dupNetpol ce6 ∧ ErrClause .dupANP ce6 := by
   constructor <;> (simp only [ErrClause]; decide)
 
+/-! 6b. Since `insertAdminNetworkPolicy` examines the priorities at insertion, a priority conflict is
+a kind of conflict like the others — reported by the object that brings it, whether or not the
+input holds other conflicts (it used to be reported by the final sort, hence only on inputs the
+insertion fold accepts; the `anpPriority` clause of `ErrClause` said `ConflictFree objs` then, and
+with that clause `build_error_names_present_conflict` is false for `ce6b`). A repeated name and a
+repeated priority: the first one met is reported. -/
+def anpB : ANP := ⟨"b", 5, .nss ⟨[], []⟩, [], []⟩
+def ce6b : List Obj := [.anp anpA, .anp anpB, .anp anpA']
+def ce6b' : List Obj := [.anp anpA, .anp anpA', .anp anpB]
+example : ce6b.Perm ce6b' := (List.Perm.swap _ _ _).cons _
+example : (Netpol.Engine.build ce6b).map (fun _ => ()) = .error .anpPriority ∧
+    (Netpol.Engine.build ce6b').map (fun _ => ()) = .error .dupANP := by decide
+example : ErrClause .anpPriority ce6b ∧ ErrClause .dupANP ce6b ∧ ¬ ConflictFree ce6b := by
+  refine ⟨?_, ?_, ?_⟩ <;> (try simp only [ErrClause]) <;> decide
+
 /-! 7. **(repaired across policies; still a counterexample inside one policy) a rule port outside
 1..65535** (the API server rejects it, a YAML file can hold it): the union of connection sets
 recognises "all connections" only on the exact range 1-65535, so whether the stray port 70000 is
